@@ -645,6 +645,55 @@ def _l5(model, rep):
        cls.methods["interpolate"].lineno)
 
 
+def _composite_padding(model, rep):
+    """CompositeBasis.basis: function j of component i is the tuple with
+    that function in slot i and a *zero field of component k's kind* in
+    every other slot k (same value / gradient shapes as the functions of
+    component k - otherwise a vector x scalar pair cannot be assembled)."""
+    from ..interp import PyFunc
+    L5 = "C19-L5"
+    cls = model.cls("skfem.assembly.basis.composite_basis", "CompositeBasis")
+    fn = cls.methods["basis"]
+    NF = [2, 1, 3]
+
+    class Fld:
+        def __init__(self, comp, j, zero=False):
+            self.comp, self.j, self.zero = comp, j, zero
+
+        def skv_getattr(self, name):
+            if name == "zeros":
+                return PyFunc(lambda a, k, n: Fld(self.comp, None, True))
+            raise Unsupported("field." + name)
+
+        def key(self):
+            return ("zero", self.comp) if self.zero else ("fn", self.comp,
+                                                          self.j)
+    bases = [Obj(None, {"basis": [(Fld(k, j),) for j in range(NF[k])]})
+             for k in range(3)]
+    obj = Obj(cls, {"bases": bases, "_basis": None, "equal_dofnum": False,
+                    "_element_dofs": None})
+    try:
+        r = Interp(model).call(fn, [], {}, self_obj=obj)
+    except (Unsupported, Raised) as e:
+        raise AnalysisError(f"CompositeBasis.basis: {e}")
+    want = []
+    for i in range(3):
+        for j in range(NF[i]):
+            want.append(tuple(("fn", i, j) if k == i else ("zero", k)
+                              for k in range(3)))
+    got = [tuple(x.key() if isinstance(x, Fld) else x for x in t)
+           for t in r] if isinstance(r, list) else r
+    _v(rep, L5, got == want, "CompositeBasis.basis:padding",
+       "function j of component i: itself in slot i, a zero field of "
+       "component k in every other slot k", cls.path, "CompositeBasis.basis",
+       f"the composite basis functions are {str(got)[:300]}; expected "
+       f"{str(want)[:200]}...: the zero in slot k must have the shapes of "
+       f"component k's fields (a zero copied from component i gives a "
+       f"velocity function a vector-valued 'pressure part': broadcasting "
+       f"error for unlike components, wrong derivative attributes for "
+       f"like-shaped ones)", fn.lineno)
+
+
 def _l6(model, rep):
     """asm(): which basis tuple goes with which block index, and which form
     class wraps a plain function - by symbolic run"""
@@ -726,6 +775,7 @@ def run(model: Model, rep, tier: str) -> None:
     rep.rule("C19-L6", "asm zips products over the same lists")
     staged(lambda: _l1(model, rep), lambda: _l2(model, rep),
            lambda: _l3(model, rep), lambda: _l4(model, rep),
+           lambda: _composite_padding(model, rep),
            lambda: _l5(model, rep), lambda: _l6(model, rep))
     rep.require_min("C19-L1", 6)
     rep.require_min("C19-L3", 12)
@@ -745,6 +795,11 @@ _LOCS = """            self.doflocs = np.array([
 _AS = "skfem/assembly/__init__.py"
 _ADI = "skfem/autodiff/__init__.py"
 MUTANTS = [
+    ("composite basis pads with zeros of the active component",
+     ("skfem/assembly/basis/composite_basis.py",
+      "                            tmp.append(self.bases[k].basis[0][0].zeros())",
+      "                            tmp.append(self.bases[i].basis[j][0].zeros())"),
+     "C19-L5"),
     ("autodiff: Jacobian slots stored as [trial, test] again",
      [(_ADI, "                ixs = slice(nt * (basis.Nbfun * i + j),\n"
        "                            nt * (basis.Nbfun * i + j + 1))",
